@@ -129,6 +129,11 @@ int32_t jls_track_repair_pointers(struct jls_core_track_s * track) {
                 descend = true;
             } else {
                 index_chunk = index_chunk_next;
+                if (summary_chunk.offset && (summary_chunk.hdr.item_next != (uint64_t) core->chunk_cur.offset)) {
+                    // the writer stopped before it linked the previous SUMMARY to this one
+                    summary_chunk.hdr.item_next = core->chunk_cur.offset;
+                    jls_core_update_chunk_header(core, &summary_chunk);
+                }
                 summary_chunk = core->chunk_cur;
                 offset = index_chunk.hdr.item_next;  // next index
                 offset_descend = offset_descend_next;
